@@ -20,6 +20,7 @@ from coba.context import CobaContext, NullLogger
 from coba.environments import Batch
 from coba.primitives import is_batch, DiscreteReward, BinaryReward, L1Reward
 from coba.pipes.rows import LazyDense, LazySparse
+from coba.safety import SafeLearner
 
 ID = "C06"
 LEVEL = "exploration"
@@ -32,6 +33,8 @@ RULE = ("case = (learn in on/off/ips/None, eval in on/ips/None, record subset of
         "to satisfy the mode's requirements; non-trivial = at least 2 interactions and (mode pair other than (on,on) or extra "
         "fields or batching); distinct = distinct canonical JSON of the case")
 ASSUMPTIONS = [
+    "continuous-action environments carry 'actions': [] or 'actions': None (coba's own checks treat both as 'no discrete actions'); the key is present, so the environment provides the field",
+    "a learner may be handed to the evaluator as a user-wrapped SafeLearner object, and the same object may be evaluated several times on environments of different batchedness; every evaluation is checked on its own",
     "whether a learner understands batches is a property of each method: the doubles refuse or accept batches independently in predict, learn and score; a method that accepts them must receive one call per batched interaction with that interaction's lists, a method that refuses them one call per row",
     "logged propensities range from 1e-6 to 1 (log-uniform, plus a few round values); the IPS reward is exactly reward/probability however small the probability is - nothing in the docstring clips or floors it",
     "an evaluator object may be used for any number of evaluations (an Experiment shares one evaluator between all learner/environment pairs); what it requires of an environment is decided per evaluation, for the learner at hand",
@@ -90,7 +93,7 @@ def make_interaction(env, row):
     if env.get("lazy") and env["ckind"] == "list": d["context"] = LazyDense(d["context"])      # as file readers produce them
     if env.get("lazy") and env["ckind"] == "dict": d["context"] = LazySparse(d["context"])
     actions = copy.deepcopy(row["actions"])
-    if f["actions"]: d["actions"] = actions
+    if f["actions"]: d["actions"] = None if env.get("actions_none") else actions      # continuous actions: [] or None
     if f["rewards"]: d["rewards"] = make_rewards(env, row, actions)
     if f["logged"]:
         d["action"] = copy.deepcopy(row["log_action"])
@@ -285,7 +288,7 @@ def check(case, events, out_rows):
         if pred_required or (pred_optional and nxt is not None and nxt["k"] == "predict"):
             preds = take_rows(w, "predict", n, batched_call, where)
             for j, (r, pr) in enumerate(zip(group, preds)):
-                want_actions = r["actions"] if "actions" in have else None
+                want_actions = r["actions"] if "actions" in have and not env.get("actions_none") else None
                 want_ctx = r["ctx"] if "context" in have else None
                 require(pr[0] == want_ctx and pr[1] == want_actions, "predict did not receive this interaction's context and actions",
                         got=(pr[0], pr[1]), want=(want_ctx, want_actions), row=pos + j, **where)
@@ -300,7 +303,7 @@ def check(case, events, out_rows):
                 require(lrn["score"], "score was called on a learner without score", **where)
                 scores = take_rows(w, "score", n, batched_score, where)
                 for j, (r, sc) in enumerate(zip(group, scores)):
-                    want_actions = r["actions"] if "actions" in have else None
+                    want_actions = r["actions"] if "actions" in have and not env.get("actions_none") else None
                     want_ctx = r["ctx"] if "context" in have else None
                     require(sc[0] == want_ctx and sc[1] == want_actions and sc[2] == r["log_action"], "score did not receive (context, actions, logged action)",
                             got=sc[:3], want=(want_ctx, want_actions, r["log_action"]), row=pos + j, **where)
@@ -332,7 +335,7 @@ def check(case, events, out_rows):
                     else: may["probability"] = pr[1]
             if "context" in record:
                 (must if "context" in have else may)["context"] = r["ctx"] if "context" in have else None
-            if "actions" in record and "actions" in have: must["actions"] = r["actions"]
+            if "actions" in record and "actions" in have: must["actions"] = None if env.get("actions_none") else r["actions"]
             if "rewards" in record and "rewards" in have:
                 must["rewards"] = [ref_reward(env, r, a) for a in r["actions"]] if discrete else ("fn", r["rvals"][0])
             if "time" in record:
@@ -374,21 +377,33 @@ def run_reuse(case):
     """One evaluator object, several successive evaluate() calls (an Experiment shares its evaluator between all
     learner/environment pairs): every call is checked against the reference for its own pair."""
     ev = SequentialCB(record=copy.deepcopy(case["record"]), learn=case["learn"], eval=case["eval"], seed=case.get("seed"))
+    shared = None
+    if case.get("shared_learner"):
+        # the user hands every evaluation the same, already wrapped SafeLearner object (all pairs carry the same learner spec)
+        lrn = case["pairs"][0]["learner"]
+        double = (RecScoreLearner if lrn["score"] else RecLearner)(lrn)
+        shared = (double, SafeLearner(double))
     for i, pair in enumerate(case["pairs"]):
         try:
-            run_pair(ev, dict(case, env=pair["env"], learner=pair["learner"]))
+            run_pair(ev, dict(case, env=pair["env"], learner=pair["learner"]), shared)
         except Violation as e:
             raise Violation(f"evaluation {i + 1} of {len(case['pairs'])} with the same evaluator object: {e}") from e
 
-def run_pair(ev, case):
+class Events:
+    """the events a (possibly shared) double recorded during one evaluation"""
+    def __init__(self, events): self.events = events
+
+def run_pair(ev, case, shared=None):
     lrn = case["learner"]
-    learner = (RecScoreLearner if lrn["score"] else RecLearner)(lrn)
+    double, given = shared if shared else ((RecScoreLearner if lrn["score"] else RecLearner)(lrn),) * 2
+    start = len(double.events)
     out_rows, error = [], None
     try:
-        for row in ev.evaluate(Env(case["env"]), learner):
+        for row in ev.evaluate(Env(case["env"]), given):
             out_rows.append(row)
     except Exception as e:     # examined below: the property allows (demands) rejection of some environments
         error = e
+    learner = Events(double.events[start:])
     if not case["env"]["rows"]:
         if error is not None: raise error
         require(not out_rows and not learner.events, "an empty environment produced rows or learner calls", rows=out_rows)
@@ -472,7 +487,12 @@ def reuse_cases(draw, tier):
     rbits = draw(st.integers(0, 127))
     record = [r for i, r in enumerate(RECORDABLE) if rbits >> i & 1]
     n = pick([2, 2, 3])
-    return {"learn": learn, "eval": eval_, "record": record, "pairs": [draw(pairs(tier, learn, eval_, True)) for _ in range(n)], "seed": pick([None, 3])}
+    case = {"learn": learn, "eval": eval_, "record": record, "pairs": [draw(pairs(tier, learn, eval_, True)) for _ in range(n)], "seed": pick([None, 3])}
+    if draw(st.integers(0, 2)) == 0:
+        # one user-wrapped SafeLearner object for all evaluations; the environments differ (batched / un-batched among others)
+        case["shared_learner"] = True
+        for p in case["pairs"][1:]: p["learner"] = case["pairs"][0]["learner"]
+    return case
 
 @st.composite
 def pairs(draw, tier, learn, eval_, score_style_logs):
@@ -533,7 +553,7 @@ def pairs(draw, tier, learn, eval_, score_style_logs):
             "extras": {k: EXTRA_VALS[d(len(EXTRA_VALS))] for k in extras},
         })
     lazy = ckind in ("list", "dict") and coin()
-    env = {"has_context": ckind != "nokey", "ckind": ckind, "lazy": lazy, "atype": atype, "rtype": rtype, "fields": fields, "extras": extras,
+    env = {"has_context": ckind != "nokey", "ckind": ckind, "lazy": lazy, "actions_none": bool(continuous and coin()), "atype": atype, "rtype": rtype, "fields": fields, "extras": extras,
            "batch": batch, "rows": rows}
     script = []
     for z in draw(st.lists(st.integers(0, BIG - 1), min_size=1, max_size=5)):
@@ -565,6 +585,7 @@ def classes(case):
     else: out.append("accepted")
     if env["extras"]: out.append("extras")
     if env.get("lazy"): out.append("lazy-context")
+    if env.get("actions_none"): out.append("actions=None (continuous)")
     if env["fields"]["probability"] and any(r["log_prob"] is not None and r["log_prob"] < 0.02 for r in env["rows"]):
         out.append("propensity<0.02" + (":ips" if "ips" in (case["learn"], case["eval"]) else ""))
     if env["fields"]["probability"] and env["rows"]:
@@ -590,6 +611,9 @@ def reuse_nontrivial(case):
 
 def reuse_classes(case):
     out = [f"learn={case['learn']}", f"eval={case['eval']}", f"evaluations={len(case['pairs'])}"]
+    if case.get("shared_learner"):
+        bs = [bool(p["env"]["batch"]) for p in case["pairs"] if p["env"]["rows"]]
+        out.append("shared wrapped learner" + (": batched and un-batched evaluations" if len(set(bs)) > 1 else ""))
     kinds = []
     for p in case["pairs"]:
         if not p["env"]["rows"]: kinds.append("empty"); continue
